@@ -353,6 +353,99 @@ def reported(name):
     return Q()
 
 
+# what each base file says, written down by hand (a parser that mis-reads a base file the same way before and after a
+# layout edit would otherwise go unnoticed)
+M_EXPECTED = [
+    ([('Netflix', 'contains("NETFLIX")', 'Subscriptions', 'Streaming', 'Netflix', ['entertainment', 'recurring'], 50, [], []),
+      ('Large', 'big', '', '', 'Large', ['large'], 50, [], [])],
+     [('big', 'amount > 100')], [('field.description', 'regex_replace(field.description, "^X ", "")')]),
+    ([('A', 'total > 50 and contains("A")', 'CatA', '', 'Alpha Co', [], 60, [('total', 'amount * 2')], [('other', 'amount + 1'), ('total', 'total')]),
+      ('B', 'regex("B(?!x)") or "q" in description', 'CatB', '', 'B', ['t1', '{extract(description, "(\\\\d)")}', '{field.k}'], 50, [], [])],
+     [], []),
+    ([('Only Tags', 'amount < 0', '', '', 'Only Tags', ['refund'], 50, [], []),
+      ('Second', 'startswith("S") and month == 12', 'Seasonal', 'Winter', 'Second', [], 50, [], [])],
+     [], []),
+]
+V_EXPECTED = [
+    ([('Big', 'total > threshold', [], 'big merchants'), ('Frequent', 'local >= 6 and category == "Food"', [('local', 'months * 2')], None)], [('threshold', '500')]),
+    ([('Total', 'True', [], None), ('Peaks', 'max(sum(by("month"))) > 300 and "recurring" in tags', [], None)], []),
+]
+BAD_VIEWS = {
+    'no-filter': '[A]\nfilter: total > 1\n\n[B]\ndescription: nothing else\n',
+    'bad-filter': '[A]\nfilter: total >\n',
+    'bad-variable': 'x = 1 +* 2\n\n[A]\nfilter: x > 1\n',
+    'unknown-line': '[A]\ncategory: Food\nfilter: total > 1\n',
+}
+
+
+def base_expected(kind, i):
+    class Q:
+        def query(self):
+            ok, why = self._run()
+            r = {'solver_queries': 0, 'solver_time_s': 0.0, 'paths': 1, 'extra': {'decided_by': 'direct comparison with the hand-written reading of the base file'}}
+            r.update({'status': 'CONFIRMED', 'message': why} if ok else {'status': 'REFUTED', 'args': {}, 'message': why})
+            return r
+
+        def _run(self):
+            import sys
+            sys.path.insert(0, REPO_SRC)
+            from tally.merchant_engine import parse_merchants
+            from tally.section_engine import parse_sections
+            reset_tally_caches()
+            if kind == 'm':
+                got = _m_digest(parse_merchants(M_BASES[i]))
+                exp = M_EXPECTED[i]
+                exp = ([tuple(x) for x in exp[0]], sorted(exp[1]), list(exp[2]))
+                got = ([tuple(x) for x in got[0]], got[1], got[2])
+            else:
+                got = _v_digest(parse_sections(V_BASES[i]))
+                exp = ([tuple(x) for x in V_EXPECTED[i][0]], sorted(V_EXPECTED[i][1]))
+                got = ([tuple(x) for x in got[0]], got[1])
+            if got != exp:
+                return False, 'base file %s%d is read as %r, it says %r' % (kind, i, got, exp)
+            return True, 'base file read as written'
+
+        def __call__(self, **kw):
+            return self._run()[0]
+    return Q()
+
+
+def views_error_reported(name):
+    """A corrupt views file: load_config keeps going but records an error entry naming the line; `sections` is None."""
+    class Q:
+        def query(self):
+            ok, why = self._run()
+            r = {'solver_queries': 0, 'solver_time_s': 0.0, 'paths': 1, 'extra': {'decided_by': 'direct run on real files'}}
+            r.update({'status': 'CONFIRMED', 'message': why} if ok else {'status': 'REFUTED', 'args': {}, 'message': why})
+            return r
+
+        def _run(self):
+            import sys
+            sys.path.insert(0, REPO_SRC)
+            from tally.config_loader import load_config
+            reset_tally_caches()
+            d = tempfile.mkdtemp(prefix='verif_c17v_')
+            cfg = os.path.join(d, 'config')
+            os.makedirs(cfg)
+            with open(os.path.join(cfg, 'settings.yaml'), 'w') as f:
+                f.write('year: 2024\nviews_file: config/views.rules\ndata_sources:\n  - name: B\n    file: data/b.csv\n    format: "{date}, {description}, {amount}"\n')
+            with open(os.path.join(cfg, 'views.rules'), 'w') as f:
+                f.write(BAD_VIEWS[name])
+            c = load_config(cfg)
+            errs = [w for w in c.get('_warnings', []) if w.get('type') == 'error' and 'views' in (w.get('message', '') + w.get('source', '')).lower()]
+            if c.get('sections') is not None:
+                return False, 'a corrupt views file produced views'
+            if not errs:
+                return False, 'no error entry for the corrupt views file in config["_warnings"]: %r' % c.get('_warnings')
+            if 'Line' not in errs[0].get('message', ''):
+                return False, 'the error does not name the line: %r' % errs[0]
+            return True, 'reported: ' + errs[0]['message'][:80]
+
+        def __call__(self, **kw):
+            return self._run()[0]
+    return Q()
+
+
 def obligations(tier, seed):
     q = tier == 'quick'
     obs = []
@@ -376,6 +469,15 @@ def obligations(tier, seed):
         for how in ['drop-filter', 'bad-filter', 'bad-variable', 'junk-line']:
             obs.append(Obligation(id=f'reject-v{i}-{how}', factory='corrupt_views', params={'i': i, 'how': how}, timeout=to,
                                   group='reject, not trim (views files)', bounds=f'base file v{i}; corruption {how} in a symbolic view with a symbolic pick'))
+    for i in range(len(M_BASES)):
+        obs.append(Obligation(id=f'base-m{i}-as-written', factory='base_expected', params={'kind': 'm', 'i': i}, engine='smt', twin=False, timeout=60,
+                              group='base files read as written', bounds=f'merchants base file m{i} against its hand-written reading'))
+    for i in range(len(V_BASES)):
+        obs.append(Obligation(id=f'base-v{i}-as-written', factory='base_expected', params={'kind': 'v', 'i': i}, engine='smt', twin=False, timeout=60,
+                              group='base files read as written', bounds=f'views base file v{i} against its hand-written reading'))
+    for name in BAD_VIEWS:
+        obs.append(Obligation(id=f'views-error-reported-{name}', factory='views_error_reported', params={'name': name}, engine='smt', twin=False, timeout=60,
+                              group='reported, not swallowed', bounds=f'corrupt views file {name!r} through the real load_config'))
     for name in CORRUPT_FILES:
         obs.append(Obligation(id=f'reported-{name}', factory='reported', params={'name': name}, engine='smt', twin=False, timeout=60,
                               group='reported, not swallowed', bounds=f'corrupt file {name!r} loaded via get_transforms + get_all_rules and via _check_merchant_migration'))
